@@ -12,6 +12,7 @@ LEVEL = {
  "C08": ("exhaustive lattice produces × success code × method × Accept × handler outcome through the real untyped stack with instrumented producers; basic-auth challenge with symbolic realm", "DESIGN.md §2 C08"),
  "C09": ("all accessor sequences up to length 3 (quick) / 5 (thorough) with call counters; sequential two-request isolation; shared-write monitor over one request from a warmed-up shared Context (inductive step for any number of concurrent requests)", "DESIGN.md §2 C09"),
  "C10": ("symbolic execution of the client URL construction (buildHTTP, PathEscape, url.Parse, EscapedPath) for path values of ≤1 (quick) / ≤2 (thorough) arbitrary bytes and placeholder-looking values over base-path × pattern catalogues, all set orders (thorough: all map iteration orders), caller/pattern/base query precedence; scheme selection exhaustive over lists of ≤3", "DESIGN.md §2 C10"),
+ "C11": ("request.buildHTTP executed symbolically for every payload kind (nil, produced value, io.Reader, io.ReadCloser, urlencoded form, multipart files, multipart field+files) with symbolic values, contents, chunkings and file names, the multipart writer goroutine and io.Pipe on the cooperative scheduler; the sent bytes are compared with the payload (multipart documents re-read with the standard reader, part types against DetectContentType of the content) and with every GetBody result an auth writer obtained (0, 1 or 2 calls)", "DESIGN.md §2 C11"),
  "C12": ("Runtime.Submit executed symbolically with the multipart writer goroutine and io.Pipe on a cooperative scheduler (every wake-up order explored) under every fault placement of the stated lattice: failing parameter/auth writer, unbuildable URL/method, upload sources failing at any offset, transport failing before/after the request body, response bodies ending or failing at any offset, readers stopping early, reuse on/off; obligations: error unless complete, files closed, response body closed once (drained first under reuse), no goroutine left, request context derived with the timeout and cancelled; plus every Read-size sequence then Close on the draining body", "DESIGN.md §2 C12"),
  "C13": ("Runtime.Submit executed symbolically behind a scripted RoundTripper ((*http.Client).Do modelled as Transport.RoundTrip): consumer selection for every response Content-Type = absent / spelling (+ parameter) / spelling ⧺ ≤1 (quick) / ≤3 (thorough) arbitrary bytes / ≤2 / ≤4 raw bytes over 5 registries, status codes and header sets through the response adapter; client/context precedence lattice (exhaustive); shared-write monitor over one Submit from a Runtime with and without an initialised client (inductive step for any number of concurrent callers)", "DESIGN.md §2 C13"),
  "C14": ("client credential writers composed with the server authenticators on the same *http.Request: user/password/token of ≤2 (quick) / ≤4 (thorough) symbolic bytes through the real base64 encode/decode, header/query/form placements and precedence, default-auth lattice", "DESIGN.md §2 C14"),
